@@ -43,6 +43,14 @@ Theorem C05_order_dup_irrelevant l l' p p' b inst item :
   set_contains (SpecifierSet_of l p) (Some b) inst item = set_contains (SpecifierSet_of l' p') (Some b) inst item.
 Proof. exact (clause_order_dup_irrelevant l l' p p' b inst item). Qed.
 Print Assumptions C05_order_dup_irrelevant.
+(* ... and on texts: same clauses up to order, duplication, spacing and stray commas - both parse, and answer alike *)
+Theorem C05_text_order_dup_irrelevant s s' p p' l :
+  map_opt Specifier (clauses s) = Some l -> (forall t, In t (clauses s) <-> In t (clauses s')) ->
+  respects (map mk_member l) -> Forall wf_member l ->
+  exists S S', SpecifierSet s p = Some S /\ SpecifierSet s' p' = Some S' /\
+    forall b inst item, set_contains S (Some b) inst item = set_contains S' (Some b) inst item.
+Proof. exact (text_order_dup_irrelevant s s' p p' l). Qed.
+Print Assumptions C05_text_order_dup_irrelevant.
 Theorem C05_respects_literal l : literal l -> respects l.
 Proof. exact (respects_of_literal l). Qed.
 Print Assumptions C05_respects_literal.
@@ -136,6 +144,7 @@ Example C05_nonvacuous :
             set_contains S (Some true) None [49;46;53] = Ans true /\ set_contains S (Some true) None [50;46;48] = Ans false /\
             set_str S = [60;50;44;62;61;49;46;48] /\ literal (ms S).
 Proof.
-  eexists. split; [vm_compute; reflexivity|]. repeat split; try (vm_compute; reflexivity).
+  eexists. split; [vm_compute; reflexivity|].
+  split; [vm_compute; reflexivity|]. split; [vm_compute; reflexivity|]. split; [vm_compute; reflexivity|]. split; [vm_compute; reflexivity|].
   intros x y [<-|[<-|[]]] [<-|[<-|[]]]; vm_compute; intros; congruence.
 Qed.
